@@ -346,8 +346,8 @@ func grid(quick bool) []txSpec {
 				if quick && n != 0 && !in(p, "empty", "kv", "set") {
 					continue
 				}
-				if r == "loop" && !in(p, "empty", "set", "kv", "b52") {
-					continue // every payload spins the same way; keep four
+				if r == "loop" && (!in(p, "empty", "set", "kv", "b52") || (quick && !in(p, "empty", "kv"))) {
+					continue // every non-KV payload spins the same way (~0.6 s per execution); keep three (quick: one) and a KV one
 				}
 				s := def()
 				s.R, s.P, s.N = r, p, n
